@@ -12,6 +12,7 @@ import PyImpSpec.Tikz
 import PyImpSpec.Registry
 import PyImpSpec.Columns
 import PyImpSpec.KKTau
+import PyImpSpec.KKAuto
 
 /-! Line-protocol driver: one request per line (`<model> <op> <args…>`), one canonical reply per line.
 Run with `lake env lean --run Driver/Main.lean`.  The harness sends the same inputs to the real
@@ -106,12 +107,44 @@ def parseFloat (s : String) : Float :=
     if sg = "-" then -v else v
   | _ => 0.0
 
+/-! ### C10: limits and final selection of the automatic number of RC elements -/
+
+def splitList (s : String) : List String := if s = "-" then [] else s.splitOn ","
+
+/-- `lim lower upper delta minX maxX lenF single transLower transMax tests md` -/
+def limReply (a : List String) : String :=
+  match a with
+  | [lower, upper, delta, minX, maxX, lenF, single, tl, tm, tests, md] =>
+    let ts : List KKAuto.T := (splitList tests).filterMap fun t => match t.splitOn ":" with
+      | [n, c] => some ⟨n.toInt!, c.toInt!⟩
+      | _ => none
+    let mds : List (Int × Bool) := (splitList md).filterMap fun t => match t.splitOn ":" with
+      | [k, b] => some (k.toInt!, b = "1")
+      | _ => none
+    match KKAuto.limits ⟨lower.toInt!, upper.toInt!, delta.toInt!, ts, minX.toInt!, maxX.toInt!, lenF.toInt!, single = "1", tl.toInt!, tm.toInt!, mds⟩ with
+    | .ok (lo, hi) => s!"ok {lo} {hi}"
+    | .error e => s!"err {e}"
+  | _ => "bad-op"
+
+/-- `pick lo hi n:score:lchi:sc,…` -/
+def pickReply (a : List String) : String :=
+  match a with
+  | [lo, hi, cands] =>
+    let cs : List KKAuto.Cand := (splitList cands).filterMap fun t => match t.splitOn ":" with
+      | [n, s, l, c] => some ⟨n.toInt!, s.toInt!, l.toInt!, c.toInt!⟩
+      | _ => none
+    match KKAuto.suggest (KKAuto.inside lo.toInt! hi.toInt! cs) with
+    | some c => s!"ok {c.n}"
+    | none => "err IndexError"
+  | _ => "bad-op"
+
 /-- analysis kernels on complex arguments: `kerc <name> Z_exp=re;im Z_fit=re;im` -/
 def kercReply (name : String) (binds : List String) : String :=
   let tbl : List (String × E) := [("residual", Gen.K.residual), ("boukampWeight", Gen.K.boukampWeight), ("chisqrTerm", Gen.K.chisqrTerm),
     ("kk_kth_Y", Gen.K.kk_kth_Y), ("kk_kth_Z", Gen.K.kk_kth_Z), ("kk_cap_Y", Gen.K.kk_cap_Y), ("kk_cap_Z", Gen.K.kk_cap_Z),
     ("kk_ind_Y", Gen.K.kk_ind_Y), ("kk_ind_Z", Gen.K.kk_ind_Z),
-    ("zhit_rec_Y", Gen.K.zhit_rec_Y), ("zhit_rec_Z", Gen.K.zhit_rec_Z), ("zhit_offset_residual", Gen.K.zhit_offset_residual)]
+    ("zhit_rec_Y", Gen.K.zhit_rec_Y), ("zhit_rec_Z", Gen.K.zhit_rec_Z), ("zhit_offset_residual", Gen.K.zhit_offset_residual),
+    ("est_pct_noise", Gen.K.est_pct_noise), ("est_pseudo_chisqr", Gen.K.est_pseudo_chisqr), ("noise_sd", Gen.K.noise_sd)]
   match tbl.find? (·.1 = name) with
   | none => "err no-kernel"
   | some (_, e) =>
@@ -465,6 +498,8 @@ def step (st : DState) (line : String) : DState × String :=
   | "tlm" :: which :: a :: b :: c :: d :: e :: binds => (st, tlmReply which [a, b, c, d, e] binds)
   | ["tau", wmin, wmax, fext, n, k] => (st, s!"ok {(KKTau.tau KKTau.floatOps (parseFloat wmin) (parseFloat wmax) (parseFloat fext) n.toNat! k.toNat!).toBits}")
   | "kerc" :: name :: binds => (st, kercReply name binds)
+  | "lim" :: a => (st, limReply a)
+  | "pick" :: a => (st, pickReply a)
   | "ker" :: which :: sym :: binds => (st, kerReply which sym binds)
   | "imp" :: n :: toks => (st, impReply n.toNat! toks)
   | _ => (st, "bad-op")
